@@ -161,6 +161,10 @@ Judge(e) ==
            \* associativity is implied by the set definition of union only when no operand has an edge end that
            \* is missing in it but present in another operand; it is asserted for edge-closed operands
            IF (\A i \in DOMAIN e.c : EdgeClosed(reg[e.c[i]])) => SameSets(reg[e.a], reg[e.b]) THEN {} ELSE {"law." \o e.law}
+       [] e.op = "LawSameSharedNodes" ->
+           \* every node of a is, with all its attributes and its kind, the node b holds under the same identifier
+           IF UniqueIds(reg[e.a]) /\ UniqueIds(reg[e.b]) /\ \A i \in Ids(reg[e.a]) \cap Ids(reg[e.b]) : NodeOf(reg[e.a], i) = NodeOf(reg[e.b], i)
+           THEN {} ELSE {"law." \o e.law}
        [] e.op = "LawIds" ->
            IF Ids(reg[e.a]) = Ids(reg[e.b]) THEN {} ELSE {"law." \o e.law}
        [] e.op = "LawEmpty" ->
